@@ -15,8 +15,8 @@ import b2_wp as B2           # noqa: E402
 import native as NAT         # noqa: E402
 from recipes import JOBS, B2JOBS, NATIVEJOBS, PROPS  # noqa: E402
 
-OUT = os.path.join(ROOT, 'out')
-EVID = os.path.join(ROOT, 'evidence')
+OUT = os.environ.get('VP_OUT') or os.path.join(ROOT, 'out')
+EVID = os.environ.get('VP_EVID') or os.path.join(ROOT, 'evidence')
 
 
 def load_known():
